@@ -171,14 +171,23 @@ func H_FuncKinds() {
 // alternating between the two services; happens-before race detector on.
 func H_SharedCodeConc() {
 	life := vrt.Pick("life", 1, 2)
+	mode := vrt.Pick("mode", 0, 1)
 	c := godi.NewCollection()
-	add := func(f any) error {
+	add := func(f any, opts ...godi.AddOption) error {
 		if life == 1 {
-			return c.AddScoped(f)
+			return c.AddScoped(f, opts...)
 		}
-		return c.AddTransient(f)
+		return c.AddTransient(f, opts...)
 	}
-	vrt.Assume(add(madeCtor(1)) == nil && add(madeCtor2(2)) == nil)
+	if mode == 0 {
+		// two signatures, one code pointer: the analysis cache keeps being rewritten
+		vrt.Assume(add(madeCtor(1)) == nil && add(madeCtor2(2)) == nil)
+	} else {
+		// closures of one literal under two names, each consuming a dependency whose
+		// constructor yields: another goroutine runs between "pick the function" and "call it"
+		vrt.Assume(add(closureCtorDep(10), godi.Name("a")) == nil && add(closureCtorDep(20), godi.Name("b")) == nil)
+		vrt.Assume(c.AddTransient(func() *TagSvc2 { vrt.Yield(); return &TagSvc2{Tag: 7} }) == nil)
+	}
 	p, err := c.Build()
 	vrt.Assert(err == nil, "C09.shared_code_build_failed", "Build failed:", err)
 	if err != nil {
@@ -199,14 +208,27 @@ func H_SharedCodeConc() {
 			for k := 0; k < rounds; k++ {
 				first := (g+k)%2 == 0
 				for j := 0; j < 2; j++ {
-					if first == (j == 0) {
+					switch {
+					case mode == 1:
+						// goroutine 0 asks for a, goroutine 1 for b, alternating later
+						name, want := "a", 17
+						if first != (j == 0) {
+							name, want = "b", 27
+						}
+						v, e := godi.ResolveKeyed[*TagSvc](sc[g], name)
+						if e != nil {
+							failed[g] = e
+						} else if v.Tag != want {
+							bad[g]++
+						}
+					case first == (j == 0):
 						v, e := godi.Resolve[*TagSvc](sc[g])
 						if e != nil {
 							failed[g] = e
 						} else if v.Tag != 1 {
 							bad[g]++
 						}
-					} else {
+					default:
 						v, e := godi.Resolve[*TagSvc2](sc[g])
 						if e != nil {
 							failed[g] = e
@@ -219,7 +241,7 @@ func H_SharedCodeConc() {
 			}
 		})
 	}
-	vrt.RaceDetect(true)
+	vrt.RaceDetect(vrt.Param("race", 1) == 1)
 	vrt.Go("A", func() { run(0) })
 	vrt.Go("B", func() { run(1) })
 	vrt.WaitAll()
@@ -228,6 +250,7 @@ func H_SharedCodeConc() {
 		vrt.Assert(!panicked[g], "C09.panic", "goroutine", g, "panicked while resolving")
 		vrt.Assert(failed[g] == nil, "C09.undocumented_error", "goroutine", g, "resolution failed:", failed[g])
 		vrt.Assert(bad[g] == 0, "C09.wrong_wiring", "goroutine", g, "received a service built by the other constructor")
+		vrt.Assert(bad[g] == 0, "C04.wrong_function_value", "goroutine", g, "received a service built by a function value registered for another identity (concurrent resolutions)")
 	}
 	sc[0].Close()
 	sc[1].Close()
